@@ -17,7 +17,14 @@
 import XsVerif.Model.Datatypes
 import XsVerif.Model.DatatypesDate
 import XsVerif.Generated.Builtins
+import XsVerif.Model.DatatypesEnc
 import XsVerif.Lemmas.Datatypes
+import XsVerif.Lemmas.DatatypesDec
+import XsVerif.Lemmas.DatatypesEnc
+import XsVerif.Lemmas.DatatypesWs
+import XsVerif.Lemmas.DatatypesBin
+import XsVerif.Lemmas.DatatypesDateLex
+import XsVerif.Lemmas.DatatypesDateRt
 
 namespace XsVerif.Props.C02
 open XsVerif.Datatypes XsVerif.Generated
@@ -315,5 +322,225 @@ theorem timezone_range (s : Str) (z : Int) (h : parseTz s = some (some z)) : -84
       split at hz <;> omega
     · simp at h
   · simp at h
+
+
+/-! ## 6. decimals: lexical space, value, order, digit counting, round trip
+
+  Specs (Lemmas/DatatypesDec.lean, DatatypesEnc.lean):
+  `DecLex s d`      s = sign? ++ (digits+ ('.' digits*)? | '.' digits+), d = ⟨sign, ip ++ fp as a numeral, |fp|⟩
+  `Dec.toRat d`     the rational ±coef / 10^scale
+  `IntDigits q I`   I = length of the decimal numeral of q (0 for 0)
+  `FracDigits c s F`  F = least number of places that writes c / 10^s exactly -/
+
+/-- `decimal_to_python` accepts exactly the XSD decimal literals and returns sign, digits and exponent
+    of the literal … -/
+theorem parseDec_iff (s : Str) (d : Dec) : parseDec s = some d ↔ DecLex s d := parseDec_iff' s d
+
+example : DecLex "-.50".toList ⟨true, 50, 2⟩ := (parseDec_iff _ _).mp (by decide)
+example : ¬ DecLex "1 2".toList ⟨false, 12, 0⟩ := fun h => by
+  have := (parseDec_iff _ _).mpr h; revert this; decide
+
+/-- … which denote the rational  ±(integer digits + fraction digits / 10^|fraction digits|) -/
+theorem decimal_value (neg : Bool) (ip fp : Str) :
+    Dec.toRat ⟨neg, posVal (ip ++ fp), fp.length⟩ =
+      (if neg then -1 else 1) * ((posVal ip : Rat) + (posVal fp : Rat) / (10 : Rat) ^ fp.length) :=
+  dec_value neg ip fp
+
+/-- the comparisons the model (and Python's exact `Decimal` comparison) makes are the order of the
+    rationals denoted -/
+theorem dec_order (a b : Dec) :
+    (a.le b = true ↔ a.toRat ≤ b.toRat) ∧ (a.lt b = true ↔ a.toRat < b.toRat) ∧
+    (a.eqv b = true ↔ a.toRat = b.toRat) ∧ ∀ i : Int, (Dec.ofInt i).toRat = (i : Rat) :=
+  ⟨dec_le_iff a b, dec_lt_iff a b, dec_eqv_iff a b, ofInt_toRat⟩
+
+example : (Dec.mk false 150 2).eqv ⟨false, 15, 1⟩ = true ∧ (Dec.mk true 1 1).lt ⟨true, 0, 5⟩ = true := by decide
+
+/-- the four bound facets on numbers (xs:decimal and the integer types, bound and value each an `int` or a
+    `Decimal`) are ≤, <, ≥, > of the rationals denoted -/
+theorem facet_bounds_dec (E : Env) (v b : AVal) (x y : Dec)
+    (hv : v = .dec x ∨ ∃ i, v = .int i ∧ x = Dec.ofInt i) (hb : b = .dec y ∨ ∃ i, b = .int i ∧ y = Dec.ofInt i) :
+    ((Facet.minInclusive b).ok E (.atom v) = true ↔ y.toRat ≤ x.toRat) ∧
+    ((Facet.minExclusive b).ok E (.atom v) = true ↔ y.toRat < x.toRat) ∧
+    ((Facet.maxInclusive b).ok E (.atom v) = true ↔ x.toRat ≤ y.toRat) ∧
+    ((Facet.maxExclusive b).ok E (.atom v) = true ↔ x.toRat < y.toRat) := by
+  have key : ltLe E (.atom v) b = some (x.lt y, x.le y) := by
+    rcases hv with rfl | ⟨i, rfl, rfl⟩ <;> rcases hb with rfl | ⟨j, rfl, rfl⟩ <;>
+      simp [ltLe, Val.num?, AVal.num?]
+  have h1 := dec_lt_iff x y
+  have h2 := dec_le_iff x y
+  simp only [Facet.ok, key]
+  refine ⟨?_, ?_, h2, h1⟩
+  · rw [← Rat.not_lt, ← h1]; simp
+  · rw [← Rat.not_le, ← h2]; simp
+
+/-- an environment for the examples: XSD white space, repaired `count_digits`, no patterns -/
+def exEnv : Env := ⟨isXmlWs, true, fun _ _ => none, fun _ _ => none, fun _ _ => none⟩
+
+example : (Facet.maxExclusive (.int 2)).ok exEnv (.atom (.dec ⟨false, 199, 2⟩)) = true := by decide
+
+/-- `count_digits(str(Decimal))` (repaired, fix de12daf) = (digits of the integer part, least number of
+    fraction digits) of the value, for each of the three shapes `str(Decimal)` takes -/
+theorem count_digits_spec (d : Dec) :
+    IntDigits (d.coef / 10 ^ d.scale) (countDigitsDec true d).1 ∧
+    FracDigits d.coef d.scale (countDigitsDec true d).2 := countDigitsDec_spec d
+
+example : countDigitsDec true ⟨false, 1230, 10⟩ = (0, 9) ∧ countDigitsDec true ⟨false, 0, 7⟩ = (0, 0) ∧
+    countDigitsDec true ⟨true, 123450, 3⟩ = (3, 2) := by decide
+
+/-- XSD Part 2 §4.3.11/12 on xs:decimal: `fractionDigits = n` admits |v| = i / 10^m with m ≤ n;
+    `totalDigits = n` admits |v| = i / 10^m with m ≤ n and i < 10^n.  The implementation tests
+    `fraction ≤ n` resp. `integer + fraction ≤ n` on the result of `count_digits`. -/
+theorem facet_digits_dec (E : Env) (hfix : E.cdFix = true) (n : Nat) (d : Dec) :
+    ((Facet.fractionDigits n).ok E (.atom (.dec d)) = true ↔
+      ∃ i m, m ≤ n ∧ d.coef * 10 ^ m = i * 10 ^ d.scale) ∧
+    ((Facet.totalDigits n).ok E (.atom (.dec d)) = true ↔
+      ∃ i m, m ≤ n ∧ i < 10 ^ n ∧ d.coef * 10 ^ m = i * 10 ^ d.scale) := by
+  obtain ⟨hI, hF⟩ := countDigitsDec_spec d
+  simp only [Facet.ok, Val.digits?, hfix, decide_eq_true_eq]
+  exact ⟨frac_le_iff hF, total_le_iff hI hF⟩
+
+/-- on the integer types `totalDigits = n` admits |v| < 10^n -/
+theorem facet_totalDigits_int (E : Env) (n : Nat) (i : Int) :
+    (Facet.totalDigits n).ok E (.atom (.int i)) = true ↔ i.natAbs < 10 ^ n := by
+  have h := dropZeros_spec (natDigits i.natAbs) (natDigits_spec i.natAbs).2.2
+  rw [posVal_natDigits] at h
+  simp only [Facet.ok, Val.digits?, countDigitsInt, Nat.add_zero, decide_eq_true_eq]
+  generalize ((natDigits i.natAbs).dropWhile (· == '0')).length = I at h
+  rcases h with ⟨a, b⟩ | ⟨a, b, c⟩
+  · rw [a, b]; simp; exact Nat.pow_pos (by omega)
+  · constructor
+    · intro hn; exact Nat.lt_of_lt_of_le c (Nat.pow_le_pow_right (by omega) hn)
+    · intro hn
+      have := (Nat.pow_lt_pow_iff_right (by omega : 1 < 10)).mp (Nat.lt_of_le_of_lt b hn)
+      omega
+
+example : (Facet.totalDigits 3).ok exEnv (.atom (.int (-999))) = true ∧
+    (Facet.totalDigits 3).ok exEnv (.atom (.int 1000)) = false := by decide
+
+/-- encode then decode an xs:decimal (plain notation, fix 1f6f95f): same sign, digits and exponent -/
+theorem decimal_roundtrip (d : Dec) : parseDec (decPlain d) = some d := parseDec_decPlain d
+
+example : decPlain ⟨true, 1, 7⟩ = "-0.0000001".toList ∧ decPlain ⟨false, 12300, 2⟩ = "123.00".toList := by decide
+
+/-! ## 7. collapse: shape and idempotence -/
+
+/-- the collapsed text contains no white character other than single interior blanks (no tab/LF/CR, no
+    leading or trailing blank, no two adjacent blanks) and collapsing it again changes nothing -/
+theorem normalize_collapse_spec (W : Char → Bool) (hsp : W ' ' = true) (s : Str) :
+    (∀ c ∈ wsCollapse W s, W c = true → c = ' ') ∧
+    (∀ x, (wsCollapse W s).head? = some x → W x = false) ∧
+    (∀ x, (wsCollapse W s).getLast? = some x → W x = false) ∧
+    (∀ pre a c post, wsCollapse W s = pre ++ a :: c :: post → ¬ (W a = true ∧ W c = true)) ∧
+    wsCollapse W (wsCollapse W s) = wsCollapse W s := by
+  have h := wsCollapse_sqz W hsp s
+  have hl : ∀ x, (wsCollapse W s).getLast? = some x → W x = false := by
+    unfold wsCollapse strip; exact rstrip_last W _
+  obtain ⟨h1, h2, h3⟩ := sqz_spec W true _ h
+  exact ⟨h1, h2 rfl, hl, h3, wsCollapse_fix W _ h hl⟩
+
+example : wsCollapse isXmlWs " \t a \r\n  b\t".toList = "a b".toList := by decide
+
+/-! ## 8. binaries and boolean: lexical spaces, length in octets, round trips
+    (specs `HexLex`, `hexOctets`, `B64Lex` in Lemmas/DatatypesBin.lean) -/
+
+/-- `HexBinary.validate` accepts exactly sequences of pairs of hex digits; `len()` (length facets) is the
+    number of pairs = octets -/
+theorem hexBinary_lex (s : Str) :
+    (hexOk s = true ↔ ∃ n, HexLex s n) ∧ ∀ n, HexLex s n → Val.len? (.atom (.hex s)) = some n :=
+  ⟨hexOk_iff s, fun n h => hex_len s n h⟩
+
+example : HexLex "0aFF".toList 2 := ⟨[('0', 'a'), ('F', 'F')], by decide, by decide, rfl⟩
+
+/-- equality of hexBinary values in the model (upper-cased literals) is equality of the octets denoted -/
+theorem hexBinary_eq_octets (a b : Str) (ha : hexOk a = true) (hb : hexOk b = true) :
+    (hexUp a = hexUp b ↔ hexOctets a = hexOctets b) ∧
+    (hexOctets a).length = a.length / 2 ∧ ∀ o ∈ hexOctets a, o < 256 :=
+  ⟨hex_eq_iff_octets a b ha hb, hexOctets_length a ha⟩
+
+example : hexOctets "0aFF".toList = [10, 255] := by decide
+
+/-- `str(HexBinary)` (upper case) is a literal of the same value and length -/
+theorem hexBinary_roundtrip (de : DtVal → DtVal → Bool) (s : Str) (h : hexOk s = true) :
+    hexOk (encHex s) = true ∧ AVal.pyEq de (.hex (encHex s)) (.hex s) = true ∧
+    Val.len? (.atom (.hex (encHex s))) = Val.len? (.atom (.hex s)) := hex_roundtrip de s h
+
+/-- `Base64Binary(value)` accepts exactly the XSD base64Binary literals (blanks removed); `len()` is the
+    number of octets -/
+theorem base64_lex (s t : Str) :
+    (parseB64 s = some t ↔ (t = s.filter (· != ' ') ∧ ∃ n, B64Lex t n)) ∧
+    ∀ n, B64Lex t n → Val.len? (.atom (.b64 t)) = some n :=
+  ⟨parseB64_iff s t, fun n h => by simp [Val.len?, b64_len t n h]⟩
+
+example : B64Lex "YWJjYQ==".toList 4 :=
+  Or.inr ⟨["YWJj".toList], "YQ==".toList, 1, by decide, by
+    intro q hq; simp at hq; subst hq; exact ⟨'Y', 'W', 'J', 'j', by decide⟩,
+    ⟨'Y', 'Q', '=', '=', by decide⟩, rfl⟩
+
+/-- `str(Base64Binary)` is the stored literal: decoding it again gives the same value -/
+theorem base64_roundtrip (s t : Str) (h : parseB64 s = some t) : parseB64 (encB64 t) = some t :=
+  b64_roundtrip s t h
+
+/-- `boolean_to_python(python_to_boolean(b)) = b` on the map dumped from /repo -/
+theorem boolean_roundtrip (b : Bool) : lookupBool booleanMap (encBool b) = some b := by
+  cases b <;> decide
+
+/-- on the decode path the text reaches `HexBinary(…)` / `Base64Binary(…)` collapsed by xmlschema; elementpath
+    collapses once more with its own class (`epCollapse`): when the text has no white space outside the XSD
+    class this changes nothing, so the three theorems above describe what `decode` accepts -/
+theorem binary_second_collapse (s : Str) (h : ∀ c ∈ s, isEpWs c = true → isXmlWs c = true) :
+    epCollapse (wsCollapse isXmlWs s) = wsCollapse isXmlWs s := epCollapse_collapsed s h
+
+example : epCollapse (wsCollapse isXmlWs " 0a\t".toList) = "0a".toList := by decide
+
+/-- … and when it has (C02-F4, call site elementpath binary.py:56-61): EM SPACE survives the XSD collapse, is
+    removed by elementpath, and `4a<U+2003>` is accepted as xs:hexBinary, `Y<U+2003>WJj` as xs:base64Binary -/
+theorem binary_whitespace_counterexample :
+    hexOk (wsCollapse isXmlWs ['4', 'a', Char.ofNat 0x2003]) = false ∧
+    hexOk (epCollapse (wsCollapse isXmlWs ['4', 'a', Char.ofNat 0x2003])) = true ∧
+    parseB64 (wsCollapse isXmlWs ['Y', Char.ofNat 0x2003, 'W', 'J', 'j']) = none ∧
+    parseB64 (epCollapse (wsCollapse isXmlWs ['Y', Char.ofNat 0x2003, 'W', 'J', 'j'])) = some "YWJj".toList := by
+  decide
+
+/-! ## 9. xs:date end to end: lexical grammar against the port of `Date.fromstring` + constructor
+    (specs `TzLex`, `DateLex`, `DateJudged` in Lemmas/DatatypesDateLex.lean) -/
+
+/-- the time-zone part: `Z | (+|-)hh:mm` with hh:mm ≤ 14:00, value in minutes -/
+theorem timezone_lex (s : Str) (tz : Tz) : parseTz s = some tz ↔ TzLex s tz := parseTz_iff s tz
+
+/-- FULL statement (false for the code: `date_lex_counterexample`, finding C02-F6):
+      ∀ v11 s v, parseDt .date v11 s = some v ↔ DateLex v11 s v
+    proved for the years the check judges (`DateJudged`: XSD 1.1 from −2³¹ to 9999, XSD 1.0 from 1 to 2³¹):
+    the constructor accepts exactly  -?yyyy+-mm-dd(tz)?  with no superfluous leading zero, no year 0 in 1.0,
+    month 1..12, day within the month of the proleptic Gregorian calendar, time zone within ±14:00, and
+    returns those fields (1.1 stores non-positive years shifted by one) -/
+theorem date_lex_partial (v11 : Bool) (s : Str) (v : DtVal) (hg : DateJudged v11 v.year) :
+    parseDt .date v11 s = some v ↔ DateLex v11 s v := XsVerif.Datatypes.date_lex_partial v11 s v hg
+
+example : DateLex true "2000-02-29+14:00".toList ⟨.date, 2000, 2, 29, 0, 0, 0, 0, some 840⟩ :=
+  (date_lex_partial true _ _ (by decide)).mp (by decide)
+example : parseDt .date false "1900-02-29".toList = none := by decide
+
+/-- the guard is needed: 10000-02-29 is an xs:date (10000 is a leap year) and the constructor refuses it -/
+theorem date_lex_counterexample :
+    DateLex true "10000-02-29".toList ⟨.date, 10000, 2, 29, 0, 0, 0, 0, none⟩ ∧
+    parseDt .date true "10000-02-29".toList = none := XsVerif.Datatypes.date_lex_counterexample
+
+/-- FULL statement (false for the code: `date_roundtrip_counterexample`, finding C02-F10):
+      ∀ v11 s v, parseDt .date v11 s = some v → parseDt .date v11 (dateStr v11 v) = some v
+    i.e. `str(Date)` of a decoded xs:date decodes to the same value (year with the 1.1 shift undone, two-digit
+    month and day, `Z`/`±hh:mm`); proved for every year except XSD 1.1 years below −9999 -/
+theorem date_roundtrip_partial (v11 : Bool) (s : Str) (v : DtVal)
+    (h : parseDt .date v11 s = some v) (hg : DateRtJudged v11 v.year) :
+    parseDt .date v11 (dateStr v11 v) = some v := XsVerif.Datatypes.date_roundtrip_partial v11 s v h hg
+
+example : dateStr true ⟨.date, -1, 2, 29, 0, 0, 0, 0, some (-300)⟩ = "0000-02-29-05:00".toList ∧
+    parseDt .date true "0000-02-29-05:00".toList = some ⟨.date, -1, 2, 29, 0, 0, 0, 0, some (-300)⟩ := by decide
+
+/-- C02-F10: XSD 1.1, '-9999-01-01' decodes to year −10000, is written '-10000-01-01', which decodes to −10001 -/
+theorem date_roundtrip_counterexample :
+    parseDt .date true "-9999-01-01".toList = some ⟨.date, -10000, 1, 1, 0, 0, 0, 0, none⟩ ∧
+    dateStr true ⟨.date, -10000, 1, 1, 0, 0, 0, 0, none⟩ = "-10000-01-01".toList ∧
+    parseDt .date true "-10000-01-01".toList = some ⟨.date, -10001, 1, 1, 0, 0, 0, 0, none⟩ :=
+  XsVerif.Datatypes.date_roundtrip_counterexample
 
 end XsVerif.Props.C02
